@@ -276,6 +276,23 @@ func addStringIntrinsics(t map[string]Intrinsic) {
 		}
 		return m.tf.App(0, "=", m.lower(x), m.lower(y))
 	})
+	// the library's own ASCII folding helpers (fix for defect 26): a byte loop over an SMT string is not executable; on
+	// symbolic strings they are summarised exactly as their meaning (concrete strings run the real code)
+	t["nhooyr.io/websocket.asciiEqualFold"] = smtOnly(func(m *Machine, fr *Frame, fn *ssa.Function, a []Value) Value {
+		m.noteStub("websocket.asciiEqualFold summarised as equality of ASCII lower-casings")
+		x, y := m.strTerm(a[0]), m.strTerm(a[1])
+		if x.Op == OpStrLit {
+			x, y = y, x
+		}
+		if y.Op == OpStrLit {
+			return m.tf.App(0, "str.in_re", x, m.foldRegex(y.Name))
+		}
+		return m.tf.App(0, "=", m.lower(x), m.lower(y))
+	})
+	t["nhooyr.io/websocket.asciiLower"] = smtOnly(func(m *Machine, fr *Frame, fn *ssa.Function, a []Value) Value {
+		m.noteStub("websocket.asciiLower summarised as str.to_lower (ASCII)")
+		return m.mkSmt(m.lower(m.strTerm(a[0])))
+	})
 	t["strings.ToLower"] = smtOnly(func(m *Machine, fr *Frame, fn *ssa.Function, a []Value) Value {
 		m.noteStub("strings.ToLower summarised as str.to_lower (ASCII)")
 		return m.mkSmt(m.lower(m.strTerm(a[0])))
